@@ -97,6 +97,12 @@ def feature_programs():
     out.append(("same_message_name_in_two_packages", {
         "demo/v1/c.proto": 'syntax = "proto3";\npackage demo.v1;\nmessage Config { map<string, string> labels = 1; map<int32, bool> flags = 2; message Inner { int32 x = 1; } map<string, Inner> inners = 3; }\n',
         "demo/v2/c.proto": 'syntax = "proto3";\npackage demo.v2;\nmessage Config { map<string, int64> labels = 1; map<string, double> limits = 2; message Inner { string y = 1; } map<int64, Inner> inners = 3; repeated string flags = 4; }\n'}))
+    # ... and with the very same spelling of the annotations in both packages (List["Item"], Dict[str, "Item"], Optional["Item"])
+    out.append(("same_type_names_in_two_packages", {
+        "p/v1/a.proto": 'syntax = "proto3";\npackage p.v1;\nmessage Item { string a = 1; }\nenum Kind { KIND_ZERO = 0; KIND_ONE = 1; }\n'
+                        "message Order { map<string, Item> items = 1; Item one = 2; repeated Item many = 3; map<int32, Kind> kinds = 4; optional Item gift = 5; repeated Kind accepts = 6; }\n",
+        "p/v2/a.proto": 'syntax = "proto3";\npackage p.v2;\nmessage Item { int64 b = 1; bytes c = 2; }\nenum Kind { KIND_ZERO = 0; KIND_TWO = 2; KIND_THREE = 3; }\n'
+                        "message Order { map<string, Item> items = 1; Item one = 2; repeated Item many = 3; map<int32, Kind> kinds = 4; optional Item gift = 5; repeated Kind accepts = 6; }\n"}))
     # two packages whose messages refer to each other (the files do not form a cycle, the packages do): whichever of them an
     # application imports first, both must come up
     out.append(("packages_referring_to_each_other", {
